@@ -80,6 +80,7 @@ theorem step_refines (dflt : T) (a a' : Arena T) (op : Op T) (out : Out T) (h : 
       exact ⟨this.1, ⟨this.2.1, this.2.2.1, this.2.2.2.1, this.2.2.2.2.1⟩, fin _ this.1⟩
     | panic => simp [he, Res.map] at hs
     | diverge => simp [he, Res.map] at hs
+    | ub => simp [he, Res.map] at hs
   | deallocate id =>
     simp only [step] at hs
     cases hg : a.get id with
@@ -153,8 +154,10 @@ theorem reachable_inv (dflt : T) (ops : List (Op T)) :
         exact hr.1 ▸ ih r.1 r'.1 r'.2 h1 (by rw [hr2])
       | panic => rw [hr2] at hr; simp [Res.map] at hr
       | diverge => rw [hr2] at hr; simp [Res.map] at hr
+      | ub => rw [hr2] at hr; simp [Res.map] at hr
     | panic => rw [hs] at hr; simp at hr
     | diverge => rw [hs] at hr; simp at hr
+    | ub => rw [hs] at hr; simp at hr
 
 theorem reachable_from_new (dflt : T) (ops : List (Op T)) (a' : Arena T) (outs : List (Out T))
     (hr : run dflt Arena.empty ops = .ok (a', outs)) : AInv a' :=
